@@ -241,6 +241,8 @@ func c12BodyWith(c *mc.Ctx, merges bool) {
 	}
 	del := c.Choose(nrefs + 1) // which ref is deleted between the prunes (nrefs = none)
 	partial := c.ChooseDev(3)  // 0: tables complete; 1: a block of the absent... see below
+	// the first prune is interrupted (the store fails from its k-th write on, for EVERY k) and then run again
+	interrupt := c.ChooseDev(2) == 1
 	c.Shard()
 	db := stores.NewMemStore()
 	used := map[int]bool{}
@@ -279,7 +281,7 @@ func c12BodyWith(c *mc.Ctx, merges bool) {
 		rd = append(rd, fmt.Sprintf("%s->%d", r.name, r.node))
 	}
 	sort.Strings(rd)
-	desc := fmt.Sprintf("parents=%v tables=%v absentTables=%v partial=%d refs=%v deleteRef=%d", g.Parents, tblOf, model.Bits(uint64(absent)), partial, rd, del)
+	desc := fmt.Sprintf("parents=%v tables=%v absentTables=%v partial=%d refs=%v deleteRef=%d interruptedFirstPrune=%v", g.Parents, tblOf, model.Bits(uint64(absent)), partial, rd, del, interrupt)
 	c.Logf("%s", desc)
 	runPrune := func(step string) bool {
 		before := c12snap(db)
@@ -293,6 +295,56 @@ func c12BodyWith(c *mc.Ctx, merges bool) {
 			return false
 		}
 		return c12checkPrune(c, before, db, rs, g, sums, tblOf, pool, step, desc)
+	}
+	if interrupt {
+		// differential oracle: whatever point the first prune was interrupted at, a second prune that
+		// completes must leave exactly what one uninterrupted prune leaves - in particular nothing that
+		// only the commits removed by the interrupted one referred to
+		refDB := db.Snapshot()
+		if err := prune.Prune(refDB, rs, nil); err != nil {
+			c.Fail("prune-error", "first prune: Prune returned %v; %s", err, desc)
+			return
+		}
+		// compared: commits, tables, blocks and block indices. The property's vocabulary keeps "table",
+		// "table index" and "profile" apart and its garbage clause names tables and blocks only: a table
+		// index / profile whose table object an interrupted prune had already deleted stays behind on the
+		// unchanged tree (nothing lists them) and is not judged.
+		judged := func(d *stores.MemStore) string {
+			var ks []string
+			for _, k := range d.Keys() {
+				if !strings.HasPrefix(k, "tblidx/") && !strings.HasPrefix(k, "tblsum/") {
+					ks = append(ks, k)
+				}
+			}
+			return strings.Join(ks, "\n")
+		}
+		want := judged(refDB)
+		for k := 1; k <= refDB.Writes(); k++ {
+			d := db.Snapshot()
+			d.FailWriteFrom = k
+			var perr error
+			if p, st := mc.Try(func() { perr = prune.Prune(d, rs, nil) }); p != nil {
+				c.Fail("prune-panic", "Prune panicked when the store failed from write %d on: %v; %s\n%s", k, p, desc, firstLinesOf(st, 10))
+				return
+			}
+			if perr == nil && d.Injected > 0 {
+				c.Fail("prune-error-swallowed", "the store failed from write %d on, yet Prune reported success; %s", k, desc)
+				return
+			}
+			d.FailWriteFrom = 0
+			if p, st := mc.Try(func() { perr = prune.Prune(d, rs, nil) }); p != nil {
+				c.Fail("prune-panic", "Prune panicked on the repository an interrupted prune (store failing from write %d on) left: %v; %s\n%s", k, p, desc, firstLinesOf(st, 10))
+				return
+			}
+			if perr != nil {
+				c.Fail("prune-error", "prune after a prune interrupted at write %d returned %v; %s", k, perr, desc)
+				return
+			}
+			if got := judged(d); got != want {
+				c.Fail("prune-interrupted-leaves-garbage", "a prune interrupted at write %d followed by a complete prune leaves %d objects, one uninterrupted prune leaves %d: %s; %s", k, d.Len(), refDB.Len(), keyDiff(want, got), desc)
+				return
+			}
+		}
 	}
 	if !runPrune("first prune") {
 		return
@@ -420,4 +472,33 @@ func init() {
 			{Name: "cli-prune-gc", Body: c12CLI, Budget: map[string]time.Duration{"quick": 40 * time.Second, "thorough": 3 * time.Minute}},
 		},
 	})
+}
+
+// keyDiff names up to four keys present on one side only.
+func keyDiff(want, got string) string {
+	w := map[string]bool{}
+	for _, k := range strings.Split(want, "\n") {
+		w[k] = true
+	}
+	var extra, missing []string
+	g := map[string]bool{}
+	for _, k := range strings.Split(got, "\n") {
+		g[k] = true
+		if !w[k] {
+			extra = append(extra, fmt.Sprintf("%q", k))
+		}
+	}
+	for k := range w {
+		if !g[k] {
+			missing = append(missing, fmt.Sprintf("%q", k))
+		}
+	}
+	sort.Strings(missing)
+	if len(extra) > 4 {
+		extra = extra[:4]
+	}
+	if len(missing) > 4 {
+		missing = missing[:4]
+	}
+	return fmt.Sprintf("left over %v, missing %v", extra, missing)
 }
